@@ -373,6 +373,14 @@ class SimLock(object):
             if not blocking:
                 return False
             s.probe("lock_contended")
+            if timeout is not None and timeout >= 0:
+                # a timed acquire of a held lock: the holder may be arbitrarily slow, so the timeout may expire
+                # first -- the scheduler decides (when nobody else can run it expires for sure)
+                if not s._runnable(exclude=a) or s.stream.chance(0.3, "acquire-timeout-expires"):
+                    s.probe("timed_acquire_expired")
+                    return False
+                s.force_yield("lock.acquire.timed")
+                continue
             s.block_on(self)
         self._locked = True
         self._owner = a
@@ -425,6 +433,12 @@ class SimRLock(object):
         while self._owner is not None:
             if not blocking:
                 return False
+            if timeout is not None and timeout >= 0:
+                if not s._runnable(exclude=a) or s.stream.chance(0.3, "acquire-timeout-expires"):
+                    s.probe("timed_acquire_expired")
+                    return False
+                s.force_yield("rlock.acquire.timed")
+                continue
             s.block_on(self)
         self._owner, self._count = me, 1
         return True
